@@ -13,8 +13,9 @@ stream could have seen and not yet handed out.  ``expect(spec, rem, ended)`` say
 Read specs (plain tuples so cases are JSON-able):
     ("bytes", n, partial)  ("into", n, partial)  ("until", delim_index, mb)  ("regex", rx_index, mb)
     ("close",)
-``mb`` is None | ("abs", k) | ("rel", d): max_bytes = k, or (end of the first match in the *whole* rest
-of the stream) + d - resolved by the harness with ``resolve_max_bytes`` when the read is issued.
+``mb`` is None | ("abs", k) | ("rel", d) | ("dlen", d): max_bytes = k (0 included), or (end of the first
+match in the *whole* rest of the stream) + d, or (length of the delimiter / of the first regex match) + d -
+resolved by the harness with ``resolve_max_bytes`` when the read is issued (never negative).
 """
 from __future__ import annotations
 
@@ -53,11 +54,16 @@ def resolve_max_bytes(spec, rest_of_stream):
     if mb is None:
         return None
     if mb[0] == "abs":
-        return max(1, mb[1])
+        return max(0, mb[1])  # 0 is a legal boundary value: any buffered byte exceeds it
     m = find_match(spec, rest_of_stream)
+    if mb[0] == "dlen":
+        # relative to the length of the delimiter / of the first regex match itself
+        if spec[0] == "until":
+            return max(0, len(DELIMS[spec[1]]) + mb[1])
+        return max(0, (m[1] - m[0] if m is not None else 2) + mb[1])
     if m is None:
-        return max(1, 4 + mb[1])
-    return max(1, m[1] + mb[1])
+        return max(0, 4 + mb[1])
+    return max(0, m[1] + mb[1])
 
 
 def expect(spec, rem, ended, max_bytes=None):
@@ -141,6 +147,9 @@ def mb_s():
         st.none(), st.none(),
         st.tuples(st.just("rel"), st.sampled_from([-1, 0, 1, 0, 1, -1, 5, 40])),
         st.tuples(st.just("abs"), st.sampled_from([1, 2, 3, 5, 16, 64, 1000, 1000, 5000, 5000])),
+        # boundary values: 0, 1, exactly the delimiter / match length and one less or more
+        st.sampled_from([("abs", 0), ("abs", 0), ("abs", 1), ("dlen", 0), ("dlen", -1), ("dlen", 1)]),
+        st.none(),
     )
 
 
